@@ -376,6 +376,8 @@ func main() {
 				add("Neg", "-1", big.NewInt(-1))
 				add("Min", lo.String(), lo)
 				add("NegTwo", "-2", big.NewInt(-2))
+				add("NegHex", "-0x10", big.NewInt(-16))
+				add("MinHexP1", "-0x"+new(big.Int).Sub(new(big.Int).Neg(lo), big.NewInt(1)).Text(16), new(big.Int).Add(lo, big.NewInt(1)))
 			}
 			sb.WriteString("}\n")
 			states++
